@@ -116,7 +116,7 @@ class Contract:
                  modular=False, which=None, props=(), note='', setup=None, result_shape=None, witnesses=(),
                  assume_result=None, ghost=None, exc_ensures=None, max_instances=None, instance_filter=None,
                  pre_state=None, trusted=False, reveal=(), functional=None, inline=(), functional_outputs=1,
-                 prune=False):
+                 prune=False, heavy=False, use=None):
         self.key = key
         self.params = params or {}
         self.requires = _clauses(requires, 'requires')
@@ -140,6 +140,8 @@ class Contract:
         self.functional = functional     # name of the uninterpreted function the (pure) result is an application of
         self.functional_outputs = functional_outputs
         self.prune = prune
+        self.heavy = heavy
+        self.use = use or {}     # {callee key: [labels of the callee's ensures this caller relies on]} (default: all)
         self.inline = tuple(inline)      # callee keys whose bodies are executed here although they have modular contracts
 
     @property
@@ -880,3 +882,27 @@ class UPred:
     def __init__(self, f, name):
         self.f = f
         self.name = name
+
+
+class OpaqueStr(Shape):
+    """an arbitrary string whose normal form strip().lower() is the concrete string nf: the function may use it
+    only through that normal form (C18 normal-form lemma), so one instance stands for every letter case and any
+    surrounding blanks"""
+
+    def __init__(self, nf):
+        self.nf = nf
+
+    def fresh(self, ctx, name, inputs=False):
+        from .values import SOpaqueStr
+        return SOpaqueStr(self.nf)
+
+    def native(self, name, ev):
+        # a representative with mixed case and surrounding blanks
+        v = ''.join(c.upper() if i % 2 == 0 else c for i, c in enumerate(self.nf))
+        return repr('  ' + v + ' ')
+
+    def engine(self, name, ev):
+        return eval(self.native(name, ev))
+
+    def describe(self):
+        return f'~{self.nf!r}'
